@@ -12,7 +12,7 @@ import ast
 
 from ..absint import Const, Dct, Domain, Interp, Leaf, Lst, Obj, Sym, Tup
 from ..cfg import build_cfg, make_opaque, names_in
-from ..common import Ctx, src
+from ..common import Ctx, is_name, src
 from ..explore import Explorer
 from ..model import AnalysisError, own_scope_nodes
 from .c06 import FreshRule, derived_names
@@ -234,3 +234,114 @@ def run(ctx: Ctx):
     ctx.guarded(normalise_on_exit, ctx)
     ctx.guarded(returns_validated, ctx)
     ctx.guarded(core_in_sync, ctx)
+    res.rule("RANK-ROTATION", "tensor_ring: every sequence rotated by the starting mode (mode order, rank vector, factor list) is rotated as a cycle of n_dim entries; the rank vector's duplicated closing entry is not part of the cycle", floor=3)
+    ctx.guarded(rank_rotation, ctx)
+
+
+# ---------------------------------------------------------------------------------
+# RANK-ROTATION: sequences that are rotated together must have the same cycle length
+# ---------------------------------------------------------------------------------
+RANK_VALIDATORS = {"validate_tr_rank": (1, 1), "validate_tt_rank": (1, 1)}  # length of the returned rank vector: n_dim + 1
+ROTATING = ["tensorly.decomposition._tr_svd.tensor_ring"]
+
+
+def _rotation(e):
+    """`A[m:] + A[:m]`, `A[m:-1] + A[:m] (+ ...)`, `A[-m:] + A[:-m]`, `tuple(range(m, n)) + tuple(range(m))`:
+    returns (sequence name | 'range', amount source, dropped closing elements) or None"""
+    terms = []
+    cur = e
+    while isinstance(cur, ast.BinOp) and isinstance(cur.op, ast.Add):
+        terms.insert(0, cur.right)
+        cur = cur.left
+    terms.insert(0, cur)
+    if len(terms) < 2:
+        return None
+    a, b = terms[0], terms[1]
+
+    def unwrap(t):
+        while isinstance(t, ast.Call) and isinstance(t.func, ast.Name) and t.func.id in ("tuple", "list") and t.args:
+            t = t.args[0]
+        return t
+
+    a, b = unwrap(a), unwrap(b)
+    if isinstance(a, ast.Subscript) and isinstance(b, ast.Subscript) and isinstance(a.slice, ast.Slice) and isinstance(b.slice, ast.Slice) and isinstance(a.value, ast.Name) and isinstance(b.value, ast.Name) and a.value.id == b.value.id:
+        lo, hi = a.slice.lower, a.slice.upper
+        if lo is not None and b.slice.lower is None and b.slice.upper is not None and src(lo) == src(b.slice.upper):
+            dropped = 0
+            if hi is not None:
+                if isinstance(hi, ast.UnaryOp) and isinstance(hi.op, ast.USub) and isinstance(hi.operand, ast.Constant) and isinstance(hi.operand.value, int):
+                    dropped = hi.operand.value
+                else:
+                    return None
+            return a.value.id, src(lo), dropped
+    if isinstance(a, ast.Call) and isinstance(b, ast.Call) and is_name(a.func, "range") and is_name(b.func, "range") and len(a.args) == 2 and len(b.args) == 1 and src(a.args[0]) == src(b.args[0]):
+        return "range:" + src(a.args[1]), src(a.args[0]), 0
+    return None
+
+
+def rank_rotation(ctx: Ctx):
+    """In tensor_ring the mode order (n_dim entries), the factor list (n_dim entries) and the rank
+    vector (n_dim + 1 entries, the closing rank duplicated) are rotated by the starting mode.
+    A slice rotation `x[m:] + x[:m]` is a cyclic rotation of *all* entries of x: applied to the
+    rank vector as a whole it puts the duplicated closing rank in the middle and shifts every
+    later rank by one bond."""
+    from .homog import Evaluator, ListV, Other, Deg, N, ONE
+
+    repo, res = ctx.repo, ctx.res
+
+    class RotEval(Evaluator):
+        """records the symbolic length of every rotated sequence at the point of the rotation"""
+
+        def _ev(self, e, env):
+            r = _rotation(e) if isinstance(e, ast.BinOp) else None
+            if r is None:
+                return super()._ev(e, env)
+            name, amount, dropped = r
+            if name.startswith("range:"):
+                v = self.ev(ast.parse(name[6:], mode="eval").body, env)
+                ln = v.count if isinstance(v, Other) and v.count is not None else None
+                elem = {}
+            else:
+                v = env.get(name)
+                ln = v.length if isinstance(v, ListV) and v.length[0] != "?" else None
+                elem = v.elem() if isinstance(v, ListV) else {}
+            self.rotations.append((e, name, ln, dropped))
+            if ln is None:
+                return ListV(("?", 0), elem, {})
+            # further `+ [x]` terms after the two slices
+            extra, cur = 0, e
+            while isinstance(cur, ast.BinOp) and isinstance(cur.op, ast.Add) and _rotation(cur) is not None and isinstance(cur.left, ast.BinOp) and _rotation(cur.left) is not None:
+                extra += len(cur.right.elts) if isinstance(cur.right, ast.List) else 0
+                cur = cur.left
+            return ListV((ln[0] - dropped + extra, ln[1]), elem, {})
+
+    for q in ROTATING:
+        f = repo.func(q)
+        ev = RotEval(ctx, f, {})
+        ev.rotations = []
+        ev.ctx_returns = {k: ListV(v, {}, {}) for k, v in RANK_VALIDATORS.items()}
+        env = {p: Other() for p in f.all_params}
+        env[f.all_params[0]] = Deg({"X": ONE}, order=N)
+        if "mode" not in f.all_params:
+            raise AnalysisError(f"RANK-ROTATION: {q} has no `mode` parameter any more")
+        env["mode"] = Other(2)  # a starting mode other than 0: the rotating branch is taken
+        ev.run(env)
+        stmt_of = {}
+        for s_ in own_scope_nodes(f.node):
+            if isinstance(s_, ast.Assign):
+                for x in ast.walk(s_.value):
+                    stmt_of[id(x)] = s_
+        seen = set()
+        rots = [(stmt_of.get(id(e)), name, ln, dropped) for e, name, ln, dropped in ev.rotations if not (id(e) in seen or seen.add(id(e)))]
+        if not rots:
+            raise AnalysisError(f"RANK-ROTATION: no rotation by the starting mode found in {q}; the rule's anchor vanished")
+        for s_, name, ln, dropped in rots:
+            if s_ is None:
+                continue
+            if ln is None:
+                raise AnalysisError(f"RANK-ROTATION: the length of `{name}` in {q} could not be determined; cannot decide")
+            eff = (ln[0] - dropped, ln[1])
+            ok = eff == (0, 1)
+            res.instance("RANK-ROTATION", f"{f.name}: {src(s_)[:70]}", sample={"line": s_.lineno, "sequence": name, "length": f"{ln[1]}*n_dim{ln[0]:+d}", "rotated_entries": f"{eff[1]}*n_dim{eff[0]:+d}", "ok": ok})
+            if not ok:
+                ctx.finding("RANK-ROTATION", f, s_, f"`{src(s_)[:90]}` rotates all {ln[1]}*n_dim{ln[0]:+d} entries of `{name}` by the starting mode, but the ring has n_dim bonds: `{name}` carries the closing rank twice (rank[-1] == rank[0]), so after the rotation the duplicate sits in the middle and every later rank is attached to the wrong bond -- for mode >= 2 the returned cores do not have the requested ranks. Rotate the n_dim distinct entries and close the ring again", construct=f"{f.name}: whole-list rotation of `{name}` (n_dim+1 entries)")
